@@ -391,6 +391,9 @@ var exception_catch(var args) {
   
   if (not e->active) { return NULL; }
   
+  /* The exception is consumed here, or raised again below */
+  e->active = false;
+  
   /* If no Arguments catch all */
   if (len(args) is 0) {
     return e->obj;
